@@ -188,7 +188,7 @@ class Inliner(object):
             return False
         if (d.get('name') or '').startswith(('operator', 'std::')) or '::operator' in (d.get('name') or ''):
             return False
-        if d.get('file', '').startswith('third_party') or d.get('file', '').endswith(('_test.cc', 'test.cc', '.h')):
+        if d.get('file', '').startswith('third_party') or d.get('file', '').endswith(('_test.cc', 'test.cc')):
             return False
         calls = {x['fn'] for b in d['blocks'] for e in b['ev'] for x in _walk(e) if x.get('k') == 'call' and x.get('fn')}
         if fid in calls:
@@ -646,7 +646,7 @@ def simplify_addr(F):
 
 # ---- std::all_of / any_of / none_of with a lambda -> the loop they stand for -----------------------
 ALGO = {'all_of': ('all', True), 'any_of': ('any', False), 'none_of': ('none', True),
-        'find_if': ('find', None), 'find_if_not': ('find_not', None)}
+        'find_if': ('find', None), 'find_if_not': ('find_not', None), 'for_each': ('each', None)}
 
 
 def desugar_algorithms(facts):
@@ -699,7 +699,7 @@ def desugar_algorithms(facts):
                     decided_val = not exhausted_val
                     # which predicate outcome ends the loop early
                     early_on_true = kind in ('any', 'none', 'find')
-                    finder = kind in ('find', 'find_not')
+                    finder = kind in ('find', 'find_not', 'each')
                     if finder:
                         res = it            # find_if returns the iterator it stopped at (or last)
                     cont = {'id': CONT, 'ev': B['ev'][ei + 1:], 'succ': B.get('succ', [])}
@@ -733,6 +733,12 @@ def desugar_algorithms(facts):
                                            'inl_ret': last}], 'succ': [CONT]},
                     ]
                     if finder:
+                        blocks[3]['ev'] = []
+                        blocks[4]['ev'] = []
+                    if kind == 'each':
+                        # for_each: the body is just the call; both exits are the plain loop exit
+                        blocks[1] = {'id': BODY, 'ev': [dict(pred, src='f(*it)', disc=True)], 'succ': [STEP]}
+                        blocks[0]['succ'] = [BODY, XT]
                         blocks[3]['ev'] = []
                         blocks[4]['ev'] = []
                     # thread the constant results into a continuation that only branches on them
